@@ -350,9 +350,12 @@ class ModelFile:
         if self.root.nsmap == new_nsmap:
             return
 
-        new_root = self.root.makeelement(
+        # The new root must be the root of a document of its own: an
+        # element made with `makeelement` stays in the old document,
+        # where absolute XPath queries keep starting at the old root.
+        new_root = etree.Element(
             self.root.tag,
-            attrib=self.root.attrib,
+            attrib=dict(self.root.attrib),
             nsmap=dict(sorted(new_nsmap.items())),
         )
         new_root.extend(self.root)
